@@ -16,6 +16,7 @@ import (
 	"time"
 
 	"github.com/nyaruka/gocommon/dates"
+	"github.com/nyaruka/gocommon/httpx"
 	"github.com/nyaruka/gocommon/random"
 	"github.com/nyaruka/gocommon/urns"
 	"github.com/nyaruka/gocommon/uuids"
@@ -117,7 +118,7 @@ func (mockTransport) RoundTrip(req *http.Request) (*http.Response, error) {
 	case "json":
 		return mk(200, "application/json", `{"name": "Bob", "age": 23, "items": ["a", "b"], "ok": true}`), nil
 	case "nested":
-		return mk(200, "application/json", `{"results": {"color": {"value": "red"}}, "list": [{"x": 1}, {"x": 2}], "__default__": "dflt", "A": 1, "a": 2}`), nil
+		return mk(200, "application/json", `{"results": {"color": {"value": "red"}}, "list": [{"x": 1}, {"x": 2}], "__default__": "dflt"}`), nil
 	case "array":
 		return mk(200, "application/json", `[1, 2, {"three": 3}]`), nil
 	case "text":
@@ -157,6 +158,13 @@ func (s classificationService) Classify(env envs.Environment, input string, logH
 	if strings.Contains(input, "fail") {
 		return nil, fmt.Errorf("mock: classifier unavailable")
 	}
+	logHTTP(&flows.HTTPLog{
+		HTTPLogWithoutTime: &flows.HTTPLogWithoutTime{
+			LogWithoutTime: &httpx.LogWithoutTime{URL: "http://mock/classify", StatusCode: 200, Request: "GET /classify HTTP/1.1\r\n\r\n", Response: "HTTP/1.0 200 OK\r\n\r\n{}", ElapsedMS: 1},
+			Status:         flows.CallStatusSuccess,
+		},
+		CreatedOn: dates.Now(),
+	})
 	conf := decimal.RequireFromString("0.8")
 	intents := []flows.ExtractedIntent{}
 	for _, name := range s.c.Intents() {
